@@ -543,14 +543,14 @@ def derive(rng, a, mode):
             return rng.choice([{'t': 'tuple', 'elems': [a['elem']]}, gen.gen_leaf(rng, 'blob'),
                                {'t': 'struct', 'members': [['members', a['elem']]], 'optional': [], 'client': False}])
         lo2, hi2 = _limits(rng, a['min'], a['max'], mode, [0, 1, 2, 3, 5, 100], 0, 2 ** 24)
-        return {'t': 'array', 'elem': derive(rng, a['elem'], rng.choice([mode, 'equal', 'wider'])), 'min': int(lo2), 'max': int(hi2)}
+        return {'t': 'array', 'elem': derive_c(rng, a['elem'], rng.choice([mode, 'equal', 'wider'])), 'min': int(lo2), 'max': int(hi2)}
     if t == 'tuple':
         if cross:
             return rng.choice([{'t': 'array', 'elem': a['elems'][0], 'min': 0, 'max': 5},
                                {'t': 'tuple', 'elems': a['elems'] + [a['elems'][-1]]},
                                {'t': 'tuple', 'elems': a['elems'][:-1] or [{'t': 'bool'}]}])
         k = rng.randrange(len(a['elems']))
-        return {'t': 'tuple', 'elems': [derive(rng, e, mode if i == k else rng.choice(['equal', 'wider']))
+        return {'t': 'tuple', 'elems': [derive_c(rng, e, mode if i == k else rng.choice(['equal', 'wider']))
                                         for i, e in enumerate(a['elems'])]}
     if t == 'struct':
         if cross:
@@ -558,7 +558,7 @@ def derive(rng, a, mode):
                                {'t': 'array', 'elem': a['members'][0][1], 'min': 0, 'max': 5}, gen.gen_leaf(rng, 'int')])
         ms = a['members']
         k = rng.randrange(len(ms))
-        members = [[n, derive(rng, m, mode if i == k else rng.choice(['equal', 'wider']))] for i, (n, m) in enumerate(ms)]
+        members = [[n, derive_c(rng, m, mode if i == k else rng.choice(['equal', 'wider']))] for i, (n, m) in enumerate(ms)]
         names = [n for n, _ in members]
         r = rng.random()
         if r < 0.25:
@@ -608,17 +608,211 @@ def _limits(rng, lo, hi, mode, cat, cmin, cmax):
     return a, b
 
 
+# ---------------------------------------------------------------------------------------------
+# derived classes (TextType, LimitsType, StatusType): trees with class marks
+# ---------------------------------------------------------------------------------------------
+NUMERIC = ('double', 'int', 'scaled')
+STATUS_TEXT = {'t': 'string', 'min': 0, 'max': gen.UNLIMITED, 'utf8': False}
+
+
+def limits_of(m):
+    return {'t': 'tuple', 'cls': 'limits', 'elems': [m, m]}
+
+
+def status_of(enum):
+    return {'t': 'tuple', 'cls': 'status', 'elems': [{'t': 'enum', 'members': enum['members']}, dict(STATUS_TEXT)]}
+
+
+def text_of(maxchars):
+    return {'t': 'string', 'cls': 'text', 'min': 0, 'max': maxchars, 'utf8': False}
+
+
+def tag_top(rng, b, p):
+    """a plain node whose shape is the one of a derived class becomes an instance of that class with probability p"""
+    if b.get('cls'):
+        return b
+    t = b['t']
+    if t == 'string' and b['min'] == 0 and not b['utf8'] and rng.random() < p:
+        return dict(b, cls='text')
+    if t == 'tuple' and len(b['elems']) == 2 and rng.random() < p:
+        x, y = b['elems']
+        if x == y and x['t'] in NUMERIC and not x.get('cls'):
+            return dict(b, cls='limits')
+        if x['t'] == 'enum' and y == STATUS_TEXT:
+            return dict(b, cls='status')
+    return b
+
+
+def plant_variants(rng, tree, p):
+    """a plain tree with derived classes planted: number leaves become LimitsType of that leaf, enums a StatusType, strings a
+    TextType (each with probability p), at any depth"""
+    t = tree['t']
+    if t in NUMERIC and rng.random() < p:
+        return limits_of(tree)
+    if t == 'enum' and rng.random() < p:
+        return status_of(tree)
+    if t == 'string' and rng.random() < p:
+        return text_of(tree['max'])
+    if t == 'array':
+        return dict(tree, elem=plant_variants(rng, tree['elem'], p))
+    if t == 'tuple':
+        return tag_top(rng, dict(tree, elems=[plant_variants(rng, e, p) for e in tree['elems']]), p)
+    if t == 'struct':
+        return dict(tree, members=[[k, plant_variants(rng, m, p)] for k, m in tree['members']])
+    return tree
+
+
+def derive_c(rng, a, mode):
+    """`derive` for trees with class marks: the second tree is derived from the kind tree, and wherever a node of it has the shape
+    of a derived class it is an instance of that class or of the plain class (both sides independently)"""
+    cls = a.get('cls')
+    if mode == 'cross' or not cls:
+        return tag_top(rng, derive(rng, {k: v for k, v in a.items() if k != 'cls'}, mode), 0.4 if cls else 0.1)
+    if cls == 'limits':
+        m2 = derive(rng, a['elems'][0], mode)
+        r = rng.random()
+        if r < 0.4 and m2['t'] in NUMERIC:
+            return limits_of(m2)
+        if r < 0.8:
+            return {'t': 'tuple', 'elems': [m2, m2]}
+        return {'t': 'tuple', 'elems': [m2, derive(rng, a['elems'][0], rng.choice(['equal', 'wider']))]}
+    if cls == 'status':
+        e2 = derive(rng, a['elems'][0], mode)
+        if e2['t'] != 'enum':
+            return e2
+        r = rng.random()
+        if r < 0.45:
+            return status_of(e2)
+        txt = dict(STATUS_TEXT) if r < 0.85 else rng.choice([text_of(gen.UNLIMITED), {'t': 'string', 'min': 0, 'max': 5, 'utf8': False},
+                                                               {'t': 'string', 'min': 0, 'max': gen.UNLIMITED, 'utf8': True}])
+        return {'t': 'tuple', 'elems': [e2, txt]}
+    # text
+    return tag_top(rng, derive(rng, {k: v for k, v in a.items() if k != 'cls'}, mode), 0.5)
+
+
+def order_limits(tree, v):
+    """a value of the kind tree made a value of the tree: the pair held at every LimitsType put in order"""
+    t = tree['t']
+    try:
+        if t == 'array':
+            return type(v)(order_limits(tree['elem'], x) for x in v)
+        if t == 'tuple':
+            items = [order_limits(e, x) for e, x in zip(tree['elems'], v)]
+            if tree.get('cls') == 'limits':
+                items = sorted(items)
+            return type(v)(items)
+        if t == 'struct':
+            ms = dict((k, m) for k, m in tree['members'])
+            return {k: order_limits(ms[k], x) if k in ms else x for k, x in v.items()}
+    except TypeError:
+        pass
+    return v
+
+
+def variant_pairs():
+    """systematic configuration class: every derived class against the plain class it is described as and against itself — equal,
+    the second wider, the second narrower, both directions — each also inside an array, a tuple and a struct"""
+    def dbl(lo, hi):
+        return {'t': 'double', 'min': fj(lo), 'max': fj(hi), 'ar': fj(0.0), 'rr': fj(1.2e-7)}
+
+    def integer(lo, hi):
+        return {'t': 'int', 'min': lo, 'max': hi}
+
+    def scaled(klo, khi):
+        return {'t': 'scaled', 'scale': fj(0.5), 'min': fj(klo * 0.5), 'max': fj(khi * 0.5), 'ar': fj(0.5), 'rr': fj(1.2e-7)}
+
+    def enum(*ms):
+        return {'t': 'enum', 'members': [list(m) for m in ms]}
+
+    def string(n, utf8=False):
+        return {'t': 'string', 'min': 0, 'max': n, 'utf8': utf8}
+
+    def plain2(x, y=None):
+        return {'t': 'tuple', 'elems': [x, x if y is None else y]}
+    pairs = []
+    # LimitsType
+    for m, wide, narrow in ((integer(0, 10), integer(-5, 20), integer(0, 5)), (dbl(0.0, 10.0), dbl(-5.0, 20.0), dbl(0.0, 5.0)),
+                            (scaled(0, 20), scaled(-10, 40), scaled(0, 10)), (integer(0, 10), dbl(0.0, 10.0), dbl(1.0, 10.0))):
+        for x in (m, wide, narrow):
+            pairs += [(limits_of(m), limits_of(x)), (limits_of(m), plain2(x)), (plain2(m), limits_of(x)), (plain2(m), plain2(x))]
+        pairs += [(limits_of(m), plain2(m, wide)), (limits_of(m), plain2(narrow, m)), (limits_of(m), {'t': 'tuple', 'elems': [m]}),
+                  (limits_of(m), {'t': 'tuple', 'elems': [m, m, m]}), ({'t': 'tuple', 'elems': [m, m, m]}, limits_of(m)),
+                  (limits_of(m), {'t': 'array', 'elem': m, 'min': 2, 'max': 2}), ({'t': 'array', 'elem': m, 'min': 2, 'max': 2}, limits_of(m)),
+                  (limits_of(m), {'t': 'struct', 'members': [['min', m], ['max', m]], 'optional': [], 'client': False}), (limits_of(m), m)]
+    # StatusType
+    idle, busy, err = ['IDLE', 100], ['BUSY', 300], ['ERROR', 400]
+    for ms, more, fewer in (([idle, busy], [idle, busy, err], [idle]), ([['a', 1], ['x y', 2]], [['a', 1], ['x y', 2], ['b', 3]], [['x y', 2]])):
+        for x in (ms, more, fewer):
+            pairs += [(status_of(enum(*ms)), status_of(enum(*x))), (status_of(enum(*ms)), plain2(enum(*x), dict(STATUS_TEXT))),
+                      (plain2(enum(*ms), dict(STATUS_TEXT)), status_of(enum(*x)))]
+        pairs += [(status_of(enum(*ms)), plain2(enum(*ms), string(5))), (status_of(enum(*ms)), plain2(enum(*ms), string(gen.UNLIMITED, True))),
+                  (status_of(enum(*ms)), plain2(enum(*ms), text_of(gen.UNLIMITED))), (plain2(enum(*ms), string(5)), status_of(enum(*ms))),
+                  (plain2(enum(*ms), string(5, True)), status_of(enum(*ms))), (status_of(enum(*ms)), {'t': 'tuple', 'elems': [enum(*ms)]}),
+                  (status_of(enum(*ms)), {'t': 'array', 'elem': dict(STATUS_TEXT), 'min': 2, 'max': 2}),
+                  (status_of(enum(*ms)), plain2(integer(0, 500), dict(STATUS_TEXT))), (plain2(integer(100, 100), dict(STATUS_TEXT)), status_of(enum(*ms)))]
+    # TextType
+    for n, more, fewer in ((5, 7, 3), (gen.UNLIMITED, gen.UNLIMITED, 255), (0, 1, 0)):
+        for x in (n, more, fewer):
+            pairs += [(text_of(n), text_of(x)), (text_of(n), string(x)), (string(n), text_of(x)), (text_of(n), string(x, True)),
+                      (string(n, True), text_of(x))]
+        pairs += [(text_of(n), {'t': 'blob', 'min': 0, 'max': 255}), ({'t': 'blob', 'min': 0, 'max': 0}, text_of(n)),
+                  (text_of(n), {'t': 'string', 'min': 1, 'max': gen.UNLIMITED, 'utf8': False})]
+    nested = []
+    for i, (a, b) in enumerate(pairs):
+        k = i % 4
+        if k == 1:
+            nested.append(({'t': 'array', 'elem': a, 'min': 0, 'max': 3}, {'t': 'array', 'elem': b, 'min': 0, 'max': 3}))
+        elif k == 2:
+            nested.append(({'t': 'tuple', 'elems': [{'t': 'bool'}, a]}, {'t': 'tuple', 'elems': [{'t': 'bool'}, b]}))
+        elif k == 3:
+            nested.append(({'t': 'struct', 'members': [['a', a]], 'optional': [], 'client': False},
+                           {'t': 'struct', 'members': [['a', b], ['q', {'t': 'bool'}]], 'optional': ['q'], 'client': False}))
+    return pairs + nested
+
+
+def boundary_witnesses(a):
+    """values of the first value set from its limits: at every node the extreme members, for a pair of numbers (max, min) as well
+    as (min, max) — a plain tuple holds both, a LimitsType only the ordered one"""
+    t = a['t']
+    if t == 'int':
+        return [a['min'], a['max']]
+    if t in ('double', 'scaled'):
+        return [_f(a['min']), _f(a['max'])]
+    if t == 'tuple':
+        per = [boundary_witnesses(e) for e in a['elems']]
+        if all(per):
+            out = [tuple(p[0] for p in per), tuple(p[-1] for p in per)]
+            if len(per) == 2:
+                out += [(per[0][-1], per[1][0]), (per[0][0], per[1][-1])]
+            return [order_limits(a, v) for v in out] if a.get('cls') == 'limits' else out
+        return []
+    if t == 'array' and a['max'] >= 1:
+        n = max(a['min'], 1)
+        return [(v,) * n for v in boundary_witnesses(a['elem'])] if n <= 4 else []
+    if t == 'struct':
+        per = [(k, boundary_witnesses(m)) for k, m in a['members']]
+        if all(p for _, p in per):
+            return [{k: p[0] for k, p in per}, {k: p[-1] for k, p in per}]
+    return []
+
+
 def gen_pair(rng, maxdepth):
     r = rng.random()
     kind = rng.choice(gen.LEAF_KINDS + gen.CONTAINER_KINDS) if r < 0.8 else None
     a = fix_scaled(rng, gen.gen_tree(rng, maxdepth if kind in gen.CONTAINER_KINDS or kind is None else 1, kind))
+    variants = rng.random() < 0.3
+    if variants:
+        # derived classes (TextType, LimitsType, StatusType) on either side, at any depth
+        a = plant_variants(rng, a, 0.6)
     r = rng.random()
     if r < 0.12:
         b = fix_scaled(rng, gen.gen_tree(rng, maxdepth))
+        if variants:
+            b = plant_variants(rng, b, 0.5)
         mode = 'random'
     else:
         mode = rng.choice(['wider', 'wider', 'equal', 'narrower', 'shifted', 'cross', 'cross'])
-        b = derive(rng, a, mode)
+        b = derive_c(rng, a, mode)
     return a, b, mode
 
 
@@ -680,14 +874,16 @@ def gen_witnesses(rng, a_plain, n):
     out = []
     for _ in range(n):
         v = gen.gen_valid(rng, a_plain)
+        if v is not None:
+            v = order_limits(a_plain, v)
         if v is not None and dtcodec.encodable(v):
             out.append(v)
     return out
 
 
 def eval_compat(case):
-    a = dtcodec.tree_to_dt(case['a'])
-    b = dtcodec.tree_to_dt(case['b'])
+    a = dicodec.di_to_dt(case['a'])
+    b = dicodec.di_to_dt(case['b'])
     out = _outcome(lambda: a.compatible(b))
     verdict = 'pass' if out[0] == 'ok' else 'bad' if out[0] == 'bad' else {'other': out[1]}
     ws = []
@@ -768,9 +964,16 @@ def disagreement(case, impl, ans):
             diffs['shared'] = (m['shared'], impl['shared'])
         return diffs or None
     if k == 'compat':
+        diffs = {}
         if m != impl['verdict']:
-            return {'verdict': (m, impl['verdict'])}
-        return None
+            diffs['verdict'] = (m, impl['verdict'])
+        # the model of the second type's validate (`cvalidate`: the kinds + the order test of every LimitsType) on the witnesses
+        macc = ans.get('macc')
+        iacc = [w['acc'] for w in impl['witnesses']]
+        if macc is not None and macc != iacc:
+            i = [x != y for x, y in zip(macc, iacc)].index(True)
+            diffs['accepts'] = ({'witness': impl['witnesses'][i]['v'], 'accepted': macc[i]}, {'witness': impl['witnesses'][i]['v'], 'accepted': iacc[i]})
+        return diffs or None
     if k == 'get':
         if not tree_eq(m, impl):
             return {'get': (m, impl)}
@@ -808,6 +1011,23 @@ def cap_resolution(b):
     return b
 
 
+def unlimit(a, b):
+    """`b` with every LimitsType that does not meet a LimitsType of `a` turned into the plain tuple it is described as"""
+    if b['t'] == 'array':
+        return dict(b, elem=unlimit(a['elem'] if a and a['t'] == 'array' else None, b['elem']))
+    if b['t'] == 'tuple':
+        ea = a['elems'] if a and a['t'] == 'tuple' else []
+        elems = [unlimit(ea[i] if i < len(ea) else None, e) for i, e in enumerate(b['elems'])]
+        out = dict(b, elems=elems)
+        if b.get('cls') == 'limits' and not (a and a.get('cls') == 'limits'):
+            out = {k: v for k, v in out.items() if k != 'cls'}
+        return out
+    if b['t'] == 'struct':
+        ma = dict((k, m) for k, m in a['members']) if a and a['t'] == 'struct' else {}
+        return dict(b, members=[[k, unlimit(ma.get(k), m)] for k, m in b['members']])
+    return b
+
+
 def signature(clause, case, impl=None):
     if case['k'] == 'compat':
         a, b = case['a'], case['b']
@@ -817,23 +1037,46 @@ def signature(clause, case, impl=None):
             b2 = relax_optional(a, b)
             refused = [w['v'] for w in impl['witnesses'] if not w['acc']]
             if b2 != b and refused:
-                dt2 = dtcodec.tree_to_dt(b2)
+                dt2 = dicodec.di_to_dt(b2)
                 if all(_outcome(lambda: dt2.validate(dtcodec.json_to_py(v)))[0] == 'ok' for v in refused):
                     return 'C03:sound:struct->struct:optional-vs-mandatory'
             # … or does the check refuse once no relative_resolution of the second type exceeds 1?
             b3 = cap_resolution(b)
             if b3 != b and refused:
-                if _outcome(lambda: dtcodec.tree_to_dt(a).compatible(dtcodec.tree_to_dt(b3)))[0] != 'ok':
+                if _outcome(lambda: dicodec.di_to_dt(a).compatible(dicodec.di_to_dt(b3)))[0] != 'ok':
                     return 'C03:sound:double:relative-resolution-not-below-1'
-        return f"C03:{clause}:{a['t']}->{b['t']}"
+            # … or is every refused witness accepted once the LimitsType nodes of the second type that do not meet a LimitsType
+            # of the first are plain tuples (the order of a pair is the only thing the second type asks for in addition)?
+            b4 = unlimit(a, b)
+            if b4 != b and refused:
+                dt4 = dicodec.di_to_dt(b4)
+                if all(_outcome(lambda: dt4.validate(dtcodec.json_to_py(v)))[0] == 'ok' for v in refused):
+                    return 'C03:sound:tuple->limits:unordered-pair'
+        return f"C03:{clause}:{dicodec.node_kind(a)}->{dicodec.node_kind(b)}"
     return f"C03:{case['k']}:{clause}:{case['tree']['t']}"
+
+
+def show(tree):
+    """repr of the datatype of a tree, derived classes by their own name (LimitsType / StatusType inherit TupleOf.__repr__)"""
+    t, cls = tree['t'], tree.get('cls')
+    if cls == 'limits':
+        return f"LimitsType({show(tree['elems'][0])})"
+    if cls == 'status':
+        return 'StatusType(%s)' % ', '.join(f'{k}={v}' for k, v in tree['elems'][0]['members'])
+    if t == 'array':
+        return f"ArrayOf({show(tree['elem'])}, {tree['min']}, {tree['max']})"
+    if t == 'tuple':
+        return 'TupleOf(%s)' % ', '.join(show(e) for e in tree['elems'])
+    if t == 'struct':
+        return 'StructOf(%s, optional=%r)' % (', '.join(f'{k}={show(m)}' for k, m in tree['members']), tree['optional'])
+    return repr(dicodec.di_to_dt(tree))
 
 
 def describe(case, impl):
     if case['k'] == 'compat':
-        a, b = dtcodec.tree_to_dt(case['a']), dtcodec.tree_to_dt(case['b'])
+        a, b = show(case['a']), show(case['b'])
         bad = [repr(dtcodec.json_to_py(w['v'])) for w in impl['witnesses'] if not w['acc']][:3]
-        return f"{a!r}.compatible({b!r}) -> {json.dumps(impl['verdict'])}; values of the first type refused by the second: {bad}"
+        return f"{a}.compatible({b}) -> {json.dumps(impl['verdict'])}; values of the first type refused by the second: {bad}"
     dt = dicodec.di_to_dt(case['tree'])
     if case['k'] == 'rebuild':
         diff = [(json.dumps(p['o'])[:80], json.dumps(p['d'])[:80]) for p in impl['probes'] if p['o'] != p['d']][:2]
@@ -861,7 +1104,8 @@ def shrink(ctx, case, clause):
                 if sc['k'] == 'compat':
                     import random
                     rng = random.Random(0)
-                    sc['witnesses'] = [dtcodec.py_to_json(v) for v in gen_witnesses(rng, sc['a'], 12) + all_small_ints(sc['a'])]
+                    sc['witnesses'] = [dtcodec.py_to_json(v) for v in gen_witnesses(rng, sc['a'], 12) + all_small_ints(sc['a'])
+                                       + boundary_witnesses(sc['a']) if dtcodec.encodable(v)]
                 else:
                     import random
                     rng = random.Random(0)
@@ -925,15 +1169,21 @@ def run(ctx):
     for a, b in int_enum_pairs():
         ws = [dtcodec.py_to_json(v) for v in all_small_ints(a)]
         cases.append(({'k': 'compat', 'a': a, 'b': b, 'witnesses': ws, 'mode': 'int-enum'}, 'pair:int-enum(systematic)'))
+    for a, b in variant_pairs():
+        import random
+        ws = [dtcodec.py_to_json(v) for v in boundary_witnesses(a) + gen_witnesses(random.Random(len(cases)), a, 6) + all_small_ints(a)
+              if dtcodec.encodable(v)]
+        cases.append(({'k': 'compat', 'a': a, 'b': b, 'witnesses': ws, 'mode': 'derived-class'}, 'pair:derived-class(systematic)'))
     for i in range(npairs):
         a, b, mode = gen_pair(rng, 2 if not big else 3)
         try:
-            a = dtcodec.dt_to_tree(dtcodec.tree_to_dt(a))
-            b = dtcodec.dt_to_tree(dtcodec.tree_to_dt(b))
+            a = dicodec.erase(dicodec.dt_to_di(dicodec.di_to_dt(a)))
+            b = dicodec.erase(dicodec.dt_to_di(dicodec.di_to_dt(b)))
         except Exception as e:
             res.count('pair.refused:' + type(e).__name__)
             continue
-        ws = [dtcodec.py_to_json(v) for v in gen_witnesses(rng, a, 8) + all_small_ints(a)]
+        ws = [dtcodec.py_to_json(v) for v in gen_witnesses(rng, a, 8) + all_small_ints(a) + boundary_witnesses(a)[:4]
+              if dtcodec.encodable(v)]
         cases.append(({'k': 'compat', 'a': a, 'b': b, 'witnesses': ws, 'mode': mode}, 'pair:' + mode))
 
     CH = 20000
@@ -956,6 +1206,8 @@ def run(ctx):
                 res.traces += 1
                 v = impl['verdict'] if isinstance(impl['verdict'], str) else 'other'
                 res.count(f"pair.{c['a']['t']}->{c['b']['t']}")
+                ca, cb = dicodec.classes(c['a']), dicodec.classes(c['b'])
+                res.count('pair.classes=' + ('plain' if not ca and not cb else '+'.join(ca or ['plain']) + '->' + '+'.join(cb or ['plain'])))
                 res.count('verdict=' + v)
                 res.count('nested=' + str(ans['nested']).lower() + ',verdict=' + v)
                 if v == 'pass':
